@@ -7,6 +7,12 @@ use super::*;
 use crate::values::lists::Pair as ConsPair;
 
 fn noop() {}
+// Dropping a reference-counted value never frees it in these harnesses (values leak): the
+// count protocol is the subject of C05, and without this CBMC executes the drop glue of every
+// SteelVal variant at every loop iteration of the handler.
+fn rc_dec_stub<T: ?Sized>(_b: &steel_rc::RcBox<T>) -> steel_rc::DecrementAction {
+    steel_rc::DecrementAction::DoNothing
+}
 fn fmt_stub(_a: core::fmt::Arguments<'_>) -> String {
     String::new()
 }
@@ -14,6 +20,7 @@ fn fmt_stub(_a: core::fmt::Arguments<'_>) -> String {
 // ---- visited set: hashbrown is replaced by a 12-entry association list (trusted: a set)
 static mut VIS: [(usize, usize); 12] = [(0, 0); 12];
 static mut VIS_N: usize = 0;
+static mut VIS_RESET_OK: bool = true;
 fn set_insert_stub<T, S, A: std::alloc::Allocator>(_this: &mut std::collections::HashSet<T, S, A>, value: T) -> bool {
     assert!(core::mem::size_of::<T>() == core::mem::size_of::<(usize, usize)>());
     let v: (usize, usize) = unsafe { core::mem::transmute_copy(&value) };
@@ -48,8 +55,8 @@ fn any_leaf() -> u8 {
 
 fn real_eq(a: &SteelVal, b: &SteelVal) -> bool {
     unsafe { VIS_N = 0 };
-    let mut lq: Vec<SteelVal> = Vec::new();
-    let mut rq: Vec<SteelVal> = Vec::new();
+    let mut lq: Vec<SteelVal> = Vec::with_capacity(8);
+    let mut rq: Vec<SteelVal> = Vec::with_capacity(8);
     let mut vis: FxHashSet<(usize, usize)> = FxHashSet::default();
     let res = {
         let mut h = RecursiveEqualityHandler { left: EqualityVisitor { queue: &mut lq }, right: EqualityVisitor { queue: &mut rq }, visited: &mut vis };
@@ -79,6 +86,7 @@ macro_rules! eq_harness {
         #[kani::stub(std::rt::thread_cleanup, noop)]
         #[kani::stub(alloc::fmt::format, fmt_stub)]
         #[kani::stub(std::collections::HashSet::insert, set_insert_stub)]
+        #[kani::stub(steel_rc::RcBox::decrement, rc_dec_stub)]
         fn $name() {
             tag_init();
             $body
@@ -144,6 +152,71 @@ eq_harness!(eq_pairs_shared_both, {
     kani::cover!(expect, "structurally equal");
     kani::cover!(!expect, "different");
     vassert!(got == expect, "equal? differs from structural equality when both values repeat a sub-object");
+    vassert!(refl, "equal? is not reflexive");
+    core::mem::forget(a);
+    core::mem::forget(b);
+});
+
+// ------------------------------------------------------------------ one comparison step from a symbolic "visited" state
+// Inside a larger comparison the pair (a, b) is reached with a visited set that may already
+// contain a (it was met before, paired with something else), b, or both.  Whatever was
+// visited before, comparing a with b must look at their contents unless THIS pair of objects
+// was compared before (which the harness excludes: a and b are compared once).
+fn pair_ptr(v: &SteelVal) -> usize {
+    match v {
+        SteelVal::Pair(p) => p.as_ptr() as usize,
+        _ => 0,
+    }
+}
+
+eq_harness!(eq_step_pair_with_visited_history, {
+    let l = [any_leaf(), any_leaf()];
+    let r = [any_leaf(), any_leaf()];
+    let a = cons(leaf(l[0]), leaf(l[1]));
+    let b = cons(leaf(r[0]), leaf(r[1]));
+    let seen_a: bool = kani::any();
+    let seen_b: bool = kani::any();
+    unsafe { VIS_N = 0 };
+    let mut lq: Vec<SteelVal> = Vec::with_capacity(8);
+    let mut rq: Vec<SteelVal> = Vec::with_capacity(8);
+    let mut vis: FxHashSet<(usize, usize)> = FxHashSet::default();
+    if seen_a {
+        vis.insert((pair_ptr(&a), 0));
+    }
+    if seen_b {
+        vis.insert((pair_ptr(&b), 0));
+    }
+    let got = {
+        let mut h = RecursiveEqualityHandler { left: EqualityVisitor { queue: &mut lq }, right: EqualityVisitor { queue: &mut rq }, visited: &mut vis };
+        h.compare_equality(a.clone(), b.clone())
+    };
+    let expect = l[0] == r[0] && l[1] == r[1];
+    kani::cover!(seen_a && !seen_b && !expect, "left object met before, contents differ");
+    kani::cover!(!seen_a && seen_b && !expect, "right object met before, contents differ");
+    kani::cover!(!seen_a && !seen_b && expect, "fresh, equal");
+    vassert!(got == expect, "equal? of two pairs depends on what was visited before instead of on their contents");
+    core::mem::forget(lq);
+    core::mem::forget(rq);
+    core::mem::forget(vis);
+    core::mem::forget(a);
+    core::mem::forget(b);
+});
+
+// masked twin for the listed finding "visited marks are kept per side": with no earlier
+// encounter of either object the answer must be the structural one
+eq_harness!(eq_step_pair_with_visited_history__kf, {
+    let l = [any_leaf(), any_leaf()];
+    let r = [any_leaf(), any_leaf()];
+    let a = cons(leaf(l[0]), leaf(l[1]));
+    let b = cons(leaf(r[0]), leaf(r[1]));
+    let got = real_eq(&a, &b);
+    let back = real_eq(&b, &a);
+    let refl = real_eq(&a, &a);
+    let expect = l[0] == r[0] && l[1] == r[1];
+    kani::cover!(expect, "equal");
+    kani::cover!(!expect, "different");
+    vassert!(got == expect, "equal? of two fresh pairs differs from the equality of their contents");
+    vassert!(got == back, "equal? is not symmetric");
     vassert!(refl, "equal? is not reflexive");
     core::mem::forget(a);
     core::mem::forget(b);
